@@ -45,7 +45,18 @@ pub fn metric_text(id: &str, out: &Out, pad: usize) -> String {
         Out::Panic => "panic".to_string(),
         Out::Blank(_) => unreachable!(),
     };
-    format!("{}{}|{}", id, "x".repeat(pad), tail)
+    // the queue must hand every string over untouched: some carry leading/trailing blanks, newlines, NUL or long tails
+    let h = crate::rng::hash_str(id);
+    let (pre, post): (&str, String) = match h % 11 {
+        0 => (" ", String::new()),
+        1 => ("\n", String::new()),
+        2 => ("\u{0}", String::new()),
+        3 => ("", "\u{feff}é🎉".to_string()),
+        4 => ("\t ", String::new()),
+        5 if pad > 0 => ("", "L".repeat(3000)),
+        _ => ("", String::new()),
+    };
+    format!("{}{}{}{}|{}", pre, id, "x".repeat(pad), post, tail)
 }
 
 pub fn outcome_of(metric: &str) -> Out {
